@@ -33,7 +33,12 @@ MODES = [("leq", IndexMode.LessOrEqual), ("less", IndexMode.Less), ("geq", Index
 SMODES = [("incl", SliceMode.Inclusive), ("excl", SliceMode.Exclusive)]
 INTERVALS = [Fr(1, 4), Fr(1, 2), Fr(1), Fr(2), Fr(3)]
 OFFSETS = [None, Fr(0), Fr(-2), Fr(-3, 4), Fr(1, 2), Fr(3)]
+INTERVALS_T = [Fr(1, 8), Fr(1, 4), Fr(1, 2), Fr(3, 4), Fr(1), Fr(3, 2), Fr(2), Fr(3), Fr(5), Fr(1024)]
+OFFSETS_T = [None, Fr(0), Fr(-1024), Fr(-2), Fr(-3, 4), Fr(-1, 8), Fr(1, 8), Fr(1, 2), Fr(3), Fr(4096)]
 TICK_ALPHA = [Fr(-1), Fr(0), Fr(1, 2), Fr(2)]
+TICK_ALPHA_T = [Fr(-5, 2), Fr(-1), Fr(0), Fr(1, 2), Fr(2), Fr(11, 4)]
+RANGE_POS_T = [Fr(-3), Fr(-5, 2), Fr(-2), Fr(-1), Fr(-1, 2), Fr(0), Fr(1, 4), Fr(1, 2), Fr(5, 4), Fr(2), Fr(5, 2),
+               Fr(11, 4), Fr(3)]
 RANGE_POS = [Fr(-2), Fr(-1), Fr(-1, 2), Fr(0), Fr(1, 4), Fr(1, 2), Fr(5, 4), Fr(2), Fr(3)]
 SET_POS = [Fr(-1), Fr(-1, 2), Fr(0), Fr(1, 2), Fr(1), Fr(3, 2), Fr(2), Fr(5, 2), Fr(3), Fr(4)]
 FAR = 1 << 17
@@ -43,26 +48,40 @@ NONDYADIC_OFF = [None, 0.1, -0.7, 12.3]
 
 
 def BOUNDS(tier):
-    return {"sampled_configs": len(INTERVALS) * len(OFFSETS), "sample_k": [-3, 6] if tier == "thorough" else [-2, 4],
-            "tick_vectors": 70, "tick_sources": ["stored", "linked"], "set_label_counts": [0, 1, 2, 3],
+    th = tier == "thorough"
+    return {"sampled_configs": len(INTERVALS_T) * len(OFFSETS_T) if th else len(INTERVALS) * len(OFFSETS),
+            "sample_k": [-4, 12] if th else [-2, 4],
+            "tick_vectors": "70 over 4 values, length 0..4" + ("; + every vector of length 1..5 over 6 values (stored, linked, alias)" if th else ""),
+            "tick_sources": ["stored", "linked 1-D array", "column of a linked 2-D array", "data frame column",
+                             "alias (array is its own ticks)", "ticks passed as argument"],
+            "set_label_counts": [0, 1, 2, 3, 4, 5] if th else [0, 1, 2, 3],
+            "nondyadic_roundtrip_n": 2000 if th else 120,
             "far_index": FAR}
 
 
 def cases(tier):
-    krange = (-3, 6) if tier == "thorough" else (-2, 4)
-    for iv in INTERVALS:
-        for off in OFFSETS:
+    krange = (-4, 12) if tier == "thorough" else (-2, 4)
+    for iv in (INTERVALS_T if tier == "thorough" else INTERVALS):
+        for off in (OFFSETS_T if tier == "thorough" else OFFSETS):
             yield {"k": "sampled", "iv": str(iv), "off": None if off is None else str(off), "kr": krange}
     for iv in NONDYADIC_IV:
         for off in NONDYADIC_OFF:
-            yield {"k": "roundtrip", "iv": iv, "off": off, "n": 300 if tier == "thorough" else 120}
+            yield {"k": "roundtrip", "iv": iv, "off": off, "n": 2000 if tier == "thorough" else 120}
     for n in range(0, 5):
         for ticks in itertools.combinations_with_replacement(TICK_ALPHA, n):
-            for src in ("stored", "linked"):
-                if n == 0 and src == "linked":
+            for src in ("stored", "linked", "linked2d", "frame", "alias", "ticks-arg"):
+                if n == 0 and src != "stored":
                     continue
                 yield {"k": "range", "ticks": [str(t) for t in ticks], "src": src}
-    for n in range(0, 4):
+    if tier == "thorough":
+        # wider tick alphabet and longer vectors (stored and linked)
+        for n in range(1, 6):
+            for ticks in itertools.combinations_with_replacement(TICK_ALPHA_T, n):
+                if set(ticks) <= set(TICK_ALPHA) and n <= 4:
+                    continue
+                for src in ("stored", "linked", "alias"):
+                    yield {"k": "range", "ticks": [str(t) for t in ticks], "src": src, "wide": True}
+    for n in range(0, 6 if tier == "thorough" else 4):
         yield {"k": "set", "n": n}
 
 
@@ -264,6 +283,30 @@ def run_sampled(case, r):
             for mname, mode in MODES:
                 exp = i if mname != "less" else (i - 1 if i > 0 else None)
                 check_index(r, "sampled", dim, pos, mname, mode, exp, "roundtrip|" + offc, ctx)
+        # axis generated from a start position: the positions of consecutive samples from there on;
+        # a start position before the offset is refused
+        for k in (0, 1, 3):
+            for count in (0, 1, 4):
+                r.evals += 1
+                r.nontrivial += 1
+                sp = dim.position_at(k)
+                try:
+                    ax = dim.axis(count, start_position=sp)
+                    st = "ok"
+                except Exception as exc:  # noqa
+                    ax, st = None, type(exc).__name__
+                exp = [o + (i + k) * iv for i in range(count)]
+                if st != "ok" or [Fr(float(x)) for x in ax] != exp:
+                    r.viol("C07|sampled.axis|%s|start-position|wrong-axis" % offc,
+                           "axis(%d, start_position=%r) = %r (%s), expected %r (%s)" % (
+                               count, sp, ax, st, [float(e) for e in exp], ctx), {"count": count, "k": k})
+        r.evals += 1
+        try:
+            ax = dim.axis(2, start_position=float(o - iv))
+            r.viol("C07|sampled.axis|%s|start-position-before-offset|accepted" % offc,
+                   "axis(2, start_position=%r) before the offset returned %r (%s)" % (float(o - iv), ax, ctx), {})
+        except ValueError:
+            r.outcomes.add("sampled.axis:start-before-offset:ValueError")
         for count in range(0, 5):
             for start in (None, 0, 1, 3):
                 r.evals += 1
@@ -285,15 +328,34 @@ def run_range(case, r):
         n = len(ticks)
         da = s.b.create_data_array("d", "t", data=np.arange(float(max(n, 1))))
         fticks = [float(t) for t in ticks]
-        if case["src"] == "stored":
+        src = case["src"]
+        kw = {}
+        if src in ("stored", "ticks-arg"):
             if n:
                 dim = da.append_range_dimension(fticks)
             else:
                 dim = da.append_range_dimension()
-        else:
+            if src == "ticks-arg":
+                kw = {"ticks": tuple(fticks)}        # documented optional argument: the ticks of this dimension
+        elif src == "linked":
             tda = s.b.create_data_array("ticks", "t", data=np.array(fticks))
             dim = da.append_range_dimension()
             dim.link_data_array(tda, [-1])
+        elif src == "linked2d":
+            # the ticks are column 1 of a 2-D array whose other columns are decoys
+            m2 = np.stack([np.arange(n) * 100.0 - 7, np.array(fticks), -np.array(fticks) - 50], axis=1)
+            tda = s.b.create_data_array("ticks", "t", data=m2)
+            dim = da.append_range_dimension()
+            dim.link_data_array(tda, [-1, 1])
+        elif src == "frame":
+            df = s.b.create_data_frame("tf", "t", col_names=["dec", "tk", "s"], col_dtypes=[np.float64, np.float64, str],
+                                       data=[(float(i) * 100 - 7, fticks[i], "x") for i in range(n)])
+            dim = da.append_range_dimension()
+            dim.link_data_frame(df, 1)
+        elif src == "alias":
+            ada = s.b.create_data_array("selfticks", "t", data=np.array(fticks))
+            dim = ada.append_range_dimension_using_self()
+            da = ada
         # fresh handle from the container as well
         dim2 = da.dimensions[0]
         got_ticks = [Fr(float(t)) for t in dim2.ticks]
@@ -309,12 +371,13 @@ def run_range(case, r):
         def idx(p, mode):
             return ref_finite(ticks, p, mode)
 
-        for p in RANGE_POS:
+        POS = RANGE_POS_T if case.get("wide") else RANGE_POS
+        for p in POS:
             cls = pcls_finite(ticks, p) + "|" + rep
             for mname, mode in MODES:
                 r.nontrivial += 1
-                check_index(r, "range", dim, float(p), mname, mode, idx(p, mname), cls, ctx)
-        for a, b in itertools.product(RANGE_POS, repeat=2):
+                check_index(r, "range", dim, float(p), mname, mode, idx(p, mname), cls, ctx, **kw)
+        for a, b in itertools.product(POS, repeat=2):
             for sname, smode in SMODES:
                 exp = ref_range(idx, a, b, sname) if a <= b else None
                 cls = "%s..%s|%s%s" % (pcls_finite(ticks, a), pcls_finite(ticks, b), rep, "|reversed" if a > b else "")
@@ -330,7 +393,7 @@ def run_range(case, r):
                     continue
                 for mname, mode in MODES:
                     exp = i if mname != "less" else (i - 1 if i > 0 else None)
-                    check_index(r, "range", dim, float(t), mname, mode, exp, "roundtrip", ctx)
+                    check_index(r, "range", dim, float(t), mname, mode, exp, "roundtrip", ctx, **kw)
             for start in range(0, n + 1):
                 for count in range(0, n - start + 1):
                     r.evals += 1
